@@ -218,6 +218,13 @@ impl Core {
                 | MessageType::Response(ResponseSpecific::FindNode(_))
                 | MessageType::Request(_) => {}
             };
+        } else if matches!(
+            message.message_type,
+            MessageType::Response(ResponseSpecific::Ping(_))
+        ) {
+            // A response to one of our pings (the periodic routing table check),
+            // the node is alive, so refresh it in the routing table.
+            should_add_node = true;
         };
 
         if should_add_node {
